@@ -20,10 +20,10 @@ func ruleC19Structure(c *core.Ctx) {
 		out := localVar(fn, "out", 0)
 		srcDef := c.Prog.Src(defVertices(g, src)[0].AST)
 		o.At(fn.Site(defVertices(g, src)[0].AST, "latch"))
-		o.Require(srcDef == "src:=&sourceErrChecker{r:x.NewReader()}", "the latch does not wrap the raw stream reader directly: %s", srcDef)
+		o.Shape(srcDef == "src:=&sourceErrChecker{r:x.NewReader()}", "the latch does not wrap the raw stream reader directly: %s", srcDef)
 		outDefs := defVertices(g, out)
 		first := c.Prog.Src(outDefs[0].AST)
-		o.Require(strings.Contains(first, "io.NopCloser(src)"), "the filter chain is not built on top of the latch: %s", first)
+		o.Shape(strings.Contains(first, "io.NopCloser(src)"), "the filter chain is not built on top of the latch: %s", first)
 		// every Decode call takes `out` and assigns `out`
 		n := 0
 		for _, cv := range callVerticesSuffix(g, ".Decode") {
@@ -68,11 +68,11 @@ func ruleC19Structure(c *core.Ctx) {
 		am := c.Prog.Func("pdf", "asMalformedFilter")
 		o.At(am.Site(am.Decl, ""))
 		s1 := c.Prog.Src(am.Decl.Body)
-		o.Require(strings.Contains(s1, "iferr!=nil{if!IsMalformed(err){err=&MalformedFileError{Err:err}}returnnil,err}"), "asMalformedFilter: %s", s1)
+		o.Shape(strings.Contains(s1, "iferr!=nil{if!IsMalformed(err){err=&MalformedFileError{Err:err}}returnnil,err}"), "asMalformedFilter: %s", s1)
 		fr := c.Prog.Func("pdf", "(*filterContentReader).Read")
 		o.At(fr.Site(fr.Decl, ""))
 		s2 := c.Prog.Src(fr.Decl.Body)
-		o.Require(strings.Contains(s2, "iferr!=nil&&!errors.Is(err,io.EOF)&&!IsMalformed(err){err=&MalformedFileError{Err:err}}returnn,err"), "filterContentReader.Read: %s", s2)
+		o.Shape(strings.Contains(s2, "iferr!=nil&&!errors.Is(err,io.EOF)&&!IsMalformed(err){err=&MalformedFileError{Err:err}}returnn,err"), "filterContentReader.Read: %s", s2)
 	})
 	c.Check("C19-R5", "pdf.(*scanner).refill/latch", "refill latches the first non-EOF error and returns it on every later call", func(o *core.Ob) {
 		fn := c.Prog.Func("pdf", "(*scanner).refill")
